@@ -178,6 +178,18 @@ func runC15(ctx *core.Ctx) {
 					b.WriteString(env.HostileInput(r))
 				}
 				in = b.String()
+			case 3: // one token longer than the tokenizer's 4096-byte buffer
+				n := 4000 + r.Intn(3000)
+				switch r.Intn(4) {
+				case 0:
+					in = "<p>" + strings.Repeat("x", n) + "&amp;" + strings.Repeat("y", 200) + "</p>"
+				case 1:
+					in = `<a title="` + strings.Repeat("t", n) + `" href="http://example.org/` + strings.Repeat("p", 300) + `">x</a>`
+				case 2:
+					in = "<!--" + strings.Repeat("c", n) + "--><b>after</b>"
+				default:
+					in = "<textarea>" + strings.Repeat("<b>", n/3) + "</textarea><i>z</i>"
+				}
 			case 1: // whitespace only
 				in = gen.Pick(r, []string{" ", "\n", "\t \r\n", "  ", "\f", " ", "  ", "\x0b"})
 			case 2:
